@@ -3,7 +3,7 @@
    runner and by vm_compute inside Coq (Cases_*.v). *)
 From Coq Require Import List NArith ZArith Bool String.
 From Coq.Strings Require Import Byte.
-From OAP Require Import Base.Bytes Base.Res Base.Text Gen.Consts Model.Handshake Model.Metadata.
+From OAP Require Import Base.Bytes Base.Res Base.Text Gen.Consts Model.Handshake Model.Metadata Model.Header Model.Frame Model.Stream.
 Import ListNotations.
 Local Open Scope N_scope.
 
@@ -57,6 +57,8 @@ Definition run_hs (op : bytes) (args : list bytes) : bytes :=
     | _ => bad
     end
   else bad.
+
+Definition starts_with (p l : bytes) : bool := bytes_eqb p (firstn (List.length p) l).
 
 (* ---- metadata ---- *)
 Definition pair_s (kv : bytes * bytes) : bytes := hex (fst kv) ++ str ":" ++ hex (snd kv).
@@ -125,13 +127,208 @@ Definition run_md (op : bytes) (args : list bytes) : bytes :=
     | _ => bad end
   else bad.
 
-Definition starts_with (p l : bytes) : bool := bytes_eqb p (firstn (List.length p) l).
+(* ---- frames ---- *)
+(* byte strings in case lines: hex, "-" for empty, or rep:<2 hex digits>:<n> for n copies of one byte *)
+Definition unhexx (b : bytes) : option bytes :=
+  match split_on ":"%byte b with
+  | [r; x; n] => if bytes_eqb r (str "rep") then
+                   match unhex x, undec n with
+                   | Some [c], Some k => Some (repeat c (N.to_nat k))
+                   | _, _ => None end
+                 else None
+  | _ => unhex b
+  end.
+
+(* long outputs are summarised: length, first/last 48 bytes, byte sum and running-sum (position sensitive) *)
+Definition bsum (l : bytes) : N * N :=
+  fold_left (fun acc b => let s1 := fst acc + bN b in (s1, snd acc + s1)) l (0, 0).
+Definition hexsum (l : bytes) : bytes :=
+  if 8192 <? N.of_nat (List.length l) then
+    let '(s1, s2) := bsum l in
+    str "big:" ++ decn (List.length l) ++ str ":" ++ hex (firstn 48 l) ++ str ":" ++
+    hex (skipn (List.length l - 48) l) ++ str ":" ++ dec s1 ++ str ":" ++ dec (s2 mod 18446744073709551616)
+  else hex l.
+
+Definition ptype_n (t : ptype) : N := match t with PTNone => 0 | PTRequest => 1 | PTResponse => 2 | PTPush => 3 end.
+Definition ptype_of_n (n : N) : ptype := if n =? 1 then PTRequest else if n =? 2 then PTResponse else if n =? 3 then PTPush else PTNone.
+
+(* pkt <type> <cmd> <rid> <timeout> <status> <verify> <gzip> <nonce> <sig> <codec> <map> <body> *)
+Definition pkt_s (p : packet) : bytes :=
+  let m := p_md p in
+  join sp [dec (ptype_n (m_type m)); dec (m_cmd m); dec (m_rid m); dec (m_timeout m); dec (m_status m);
+           bool_s (m_verify m); bool_s (m_gzip m); dec (m_nonce m); hex (m_sig m); dec (m_codec m);
+           map_s (m_values m); hexsum (p_body p)].
+Definition parse_pkt (a : list bytes) : option packet :=
+  match a with
+  | [ty; cmd; rid; tmo; st; ve; gzf; nonce; sg; codec; mp; body] =>
+      match undec ty, undec cmd, undec rid, undec tmo, undec st, unbool ve, unbool gzf with
+      | Some ty, Some cmd, Some rid, Some tmo, Some st, Some ve, Some gzf =>
+          match undec nonce, unhex sg, undec codec, parse_map mp, unhexx body with
+          | Some nonce, Some sg, Some codec, Some mp, Some body =>
+              Some (mkPacket (mkMeta nonce rid cmd ve gzf tmo codec st (ptype_of_n ty) sg (md_of_list mp)) body)
+          | _, _, _, _, _ => None end
+      | _, _, _, _, _, _, _ => None end
+  | _ => None
+  end.
+
+(* gzip oracle entries: gzc:<in>=<out>   gzr:<in>=<out>:<E|X|H> *)
+Definition is_oracle (w : bytes) : bool := starts_with (str "gzc:") w || starts_with (str "gzr:") w.
+Definition split_eq (b : bytes) : option (bytes * bytes) :=
+  match split_on "="%byte b with [a; c] => Some (a, c) | _ => None end.
+Definition parse_gzc (w : bytes) : option (bytes * bytes) :=
+  if starts_with (str "gzc:") w then
+    obind (split_eq (skipn 4 w)) (fun ac => obind (unhexx (fst ac)) (fun i => obind (unhexx (snd ac)) (fun o => Some (i, o))))
+  else None.
+Definition parse_gzr (w : bytes) : option (bytes * gzread) :=
+  if starts_with (str "gzr:") w then
+    obind (split_eq (skipn 4 w)) (fun ac =>
+      obind (unhexx (fst ac)) (fun i =>
+        match split_on "/"%byte (snd ac) with
+        | [o; f] => obind (unhexx o) (fun o' =>
+                      if bytes_eqb f (str "E") then Some (i, GzStream o' GzEOF)
+                      else if bytes_eqb f (str "X") then Some (i, GzStream o' GzErr)
+                      else if bytes_eqb f (str "H") then Some (i, GzHeaderErr) else None)
+        | _ => None end))
+  else None.
+Fixpoint assoc_bytes {A} (k : bytes) (l : list (bytes * A)) : option A :=
+  match l with [] => None | (k', a) :: r => if bytes_eqb k k' then Some a else assoc_bytes k r end.
+Fixpoint filter_map {A B} (f : A -> option B) (l : list A) : list B :=
+  match l with [] => [] | a :: r => match f a with Some b => b :: filter_map f r | None => filter_map f r end end.
+(* an input the table does not list: compress gives a marker no reader accepts; read gives a header error *)
+Definition mk_oracle (ws : list bytes) : gzoracle :=
+  let cs := filter_map parse_gzc ws in
+  let rs := filter_map parse_gzr ws in
+  {| gz_compress := fun i => match assoc_bytes i cs with Some o => o | None => str "?unlisted-gzc?" end;
+     gz_read := fun i => match assoc_bytes i rs with Some r => r | None => GzHeaderErr end |}.
+
+Definition run_fr (op : bytes) (args0 : list bytes) : bytes :=
+  let gz := mk_oracle (filter is_oracle args0) in
+  let args := filter (fun w => negb (is_oracle w)) args0 in
+  if bytes_eqb op (str "fr.pack") then
+    match args with
+    | v :: thr :: pa =>
+        match undec v, undecz thr, parse_pkt pa with
+        | Some v, Some thr, Some p =>
+            res_s (fun r => hexsum (fst r) ++ sp ++ bool_s (m_gzip (p_md (snd r)))) (pack gz v thr hdr0 p)
+        | _, _, _ => bad end
+    | _ => bad end
+  else if bytes_eqb op (str "fr.unpack") then
+    match args with
+    | [v; codec; fr] =>
+        match undec v, undec codec, unhexx fr with
+        | Some v, Some codec, Some fr => res_s pkt_s (unpack_bytes gz v codec hdr0 fr)
+        | _, _, _ => bad end
+    | _ => bad end
+  else if bytes_eqb op (str "fr.rt") then      (* decode(encode p): one-shot and streaming (whole frame, then need) *)
+    match args with
+    | v :: thr :: codec :: pa =>
+        match undec v, undecz thr, undec codec, parse_pkt pa with
+        | Some v, Some thr, Some codec, Some p =>
+            match pack gz v thr hdr0 p with
+            | Ok (fr, _) =>
+                str "OK " ++ res_s pkt_s (unpack_bytes gz v codec hdr0 fr) ++ str " | " ++
+                (match stream_unpack gz v codec 3 hdr0 (mkS None fr) with
+                 | (Ok (SPkt q), s') => str "OK " ++ pkt_s q ++ str " left=" ++ decn (List.length (s_q s'))
+                 | (Ok SNeed, _) => str "NEED"
+                 | (r, _) => res_s (fun _ => []) r
+                 end)
+            | r => res_s (fun _ => []) r
+            end
+        | _, _, _, _ => bad end
+    | _ => bad end
+  else if bytes_eqb op (str "gz.dec") then     (* Decompress: verdict, content, requested capacity *)
+    match args with
+    | [i] => match unhexx i with
+             | Some i => res_s hexsum (decompress gz i)
+             | None => bad end
+    | _ => bad end
+  else if bytes_eqb op (str "gz.cap") then     (* the capacity Decompress asks for up front *)
+    match args with
+    | [i] => match unhexx i with
+             | Some i => decz (decompress_alloc gz i)
+             | None => bad end
+    | _ => bad end
+  else bad.
+
+(* ---- streaming histories over several contexts ----
+   st.hist <codec> <versions of ctx 0..n-1, e.g. 1,2,1> <op> <op> ... [oracle entries]
+   ops: f<c>!<hex>          append bytes to ctx c's receive buffer
+        u<c>                one Unpack call on ctx c
+        a<c>                Unpack until not done (readPacket)
+        b<c>!<hex>          UnpackBytes on ctx c
+        p<c>!<thr>!<12 packet fields joined by ~>   Pack on ctx c
+   output: one result per op joined by " ; " *)
+Definition sout_s (r : res sout * sstate) : bytes :=
+  match r with
+  | (Ok SNeed, s) => str "NEED q=" ++ decn (List.length (s_q s))
+  | (Ok (SPkt p), s) => str "PKT " ++ pkt_s p ++ str " q=" ++ decn (List.length (s_q s))
+  | (r', s) => res_s (fun _ => []) r' ++ str " q=" ++ decn (List.length (s_q s))
+  end.
+
+Record world := mkW { w_ctx : list (N * sstate); w_out : list bytes }.
+Fixpoint upd_nth {A} (n : nat) (a : A) (l : list A) : list A :=
+  match l, n with
+  | [], _ => []
+  | _ :: r, O => a :: r
+  | x :: r, S m => x :: upd_nth m a r
+  end.
+
+Definition run_op (gz : gzoracle) (codec : N) (w : world) (op : bytes) : option world :=
+  match op with
+  | kind :: rest =>
+      let parts := split_on "!"%byte rest in
+      match parts with
+      | cs :: ps =>
+          obind (undec cs) (fun c =>
+          obind (nth_error (w_ctx w) (N.to_nat c)) (fun vs =>
+            let '(v, s) := vs in
+            let set s' o := Some (mkW (upd_nth (N.to_nat c) (v, s') (w_ctx w)) (w_out w ++ [o])) in
+            if byte_eqb kind "f"%byte then
+              match ps with [h] => obind (unhexx h) (fun d => set (feed s d) (str "FED")) | _ => None end
+            else if byte_eqb kind "u"%byte then
+              let r := stream_unpack gz v codec 3 hdr0 s in set (snd r) (sout_s r)
+            else if byte_eqb kind "a"%byte then
+              let r := read_packets gz v codec (S (List.length (s_q s))) (fun _ => 3%nat) O s in
+              set (snd r) (res_s (fun ps => decn (List.length ps) ++ str " [" ++ join (str " / ") (map pkt_s ps) ++ str "]") (fst r)
+                           ++ str " q=" ++ decn (List.length (s_q (snd r))))
+            else if byte_eqb kind "b"%byte then
+              match ps with [h] => obind (unhexx h) (fun d => set s (res_s pkt_s (unpack_bytes gz v codec hdr0 d))) | _ => None end
+            else if byte_eqb kind "p"%byte then
+              match ps with
+              | [thr; pk] => obind (undecz thr) (fun thr => obind (parse_pkt (split_on "~"%byte pk)) (fun p =>
+                               set s (res_s (fun r => hexsum (fst r) ++ sp ++ bool_s (m_gzip (p_md (snd r)))) (pack gz v thr hdr0 p))))
+              | _ => None end
+            else None))
+      | _ => None
+      end
+  | [] => None
+  end.
+
+Definition run_st (op : bytes) (args0 : list bytes) : bytes :=
+  let gz := mk_oracle (filter is_oracle args0) in
+  let args := filter (fun w => negb (is_oracle w)) args0 in
+  if bytes_eqb op (str "st.hist") then
+    match args with
+    | codec :: vers :: ops =>
+        match undec codec, omap_all undec (split_on ","%byte vers) with
+        | Some codec, Some vs =>
+            let w0 := mkW (map (fun v => (v, mkS None [])) vs) [] in
+            match fold_left (fun ow o => obind ow (fun w => run_op gz codec w o)) ops (Some w0) with
+            | Some w => join (str " ; ") (w_out w)
+            | None => bad
+            end
+        | _, _ => bad end
+    | _ => bad end
+  else bad.
+
 
 Definition run_line (line : bytes) : bytes :=
   match words line with
   | op :: args =>
       if starts_with (str "hs.") op then run_hs op args
       else if starts_with (str "md.") op then run_md op args
+      else if starts_with (str "fr.") op || starts_with (str "gz.") op then run_fr op args
+      else if starts_with (str "st.") op then run_st op args
       else bad
   | [] => bad
   end.
